@@ -92,6 +92,18 @@ class MEngine:
         if ks is None:
             ks = self._inv.get("*", [])     # first time this cut point is seen: the whole template
         parsed = [(k, clause_from_key(k)) for k in ks]
+        mods = self.__dict__.setdefault("_cut_mods", {}).get(cut, None)
+        if cut != "entry" and mods is not None:
+            # at a loop head only what the loop may modify is havocked; every other component keeps its
+            # pre-loop value (frame), so a clause that mentions no havocked component carries nothing:
+            # it is dropped from this cut's set without asking the solver (dropping is always sound)
+            where = {c.cid: (c.obj, c.field) for c in self._cl.components}
+            keep, drop = [], []
+            for k, cl_ in parsed:
+                (keep if any(where.get(l[0]) in mods for l in cl_) else drop).append((k, cl_))
+            if drop:
+                self._violated.setdefault(cut, set()).update(k for k, _ in drop)
+            parsed = keep
         unary = {cl[0] for k, cl in parsed if len(cl) == 1}
         act = [k for k, cl in parsed if len(cl) == 1 or not any(l in unary for l in cl)]
         memo[cut] = act
@@ -117,49 +129,74 @@ class MEngine:
         s = it.ctx.solver
         bad_all = []
         first = True
+        _t0, _n = time.time(), 0
+        dbg = os.environ.get("VERIF_DEBUG_INV")
+        s2 = None          # string-free copy of the path condition, built when the path's own solver gives up
         while remaining:
+            _n += 1
+            if dbg and _n % 20 == 0:
+                print(f"  [inv] {cut}: iteration {_n}, remaining {len(remaining)}, {time.time()-_t0:.1f}s", flush=True)
             conj = cl.conj_ph(keys, ("conj", cut, id(keys))) if first else \
                 z3.And([cl.clause_ph(c) for _, c in remaining])
             first = False
-            s.push()
-            try:
-                s.add(z3.Not(z3.substitute(conj, lmap)))
-                r = guarded_check(s, 2500)
-                if r == z3.unsat:
+            goal = z3.Not(z3.substitute(conj, lmap))
+            m = None
+            done = False
+            if s2 is None:
+                s.push()
+                try:
+                    s.add(goal)
+                    r = guarded_check(s, 2500)
+                    if r == z3.unsat:
+                        done = True
+                    elif r == z3.sat:
+                        m = s.model()
+                finally:
+                    s.pop()
+                if done:
                     break
-                m = None
-                if r == z3.sat:
-                    m = s.model()
-                else:
-                    # undecided (string constraints on the path): ask again with the string-free part of
-                    # the path condition - a weaker hypothesis, so at worst clauses are dropped needlessly
+                if m is None:
+                    # undecided (string constraints on the path): from here on ask a solver that holds only the
+                    # string-free conjuncts of the path condition - a weaker hypothesis, so at worst clauses
+                    # are dropped needlessly
                     s2 = z3.Solver()
                     s2.set("timeout", 5000)
+                    s2.set("phase_selection", 5)      # random phases: diverse models cover the clause set faster
+                    absmemo = {}
                     for a_ in it.ctx.pc:
-                        if not _mentions_strings(a_):
-                            s2.add(a_)
-                    s2.add(z3.Not(z3.substitute(conj, lmap)))
-                    r2 = guarded_check(s2, 5000)
+                        s2.add(_abstract_strings(a_, absmemo))
                     self._unknown_checks = getattr(self, "_unknown_checks", 0) + 1
+            if m is None:
+                s2.push()
+                try:
+                    s2.set("random_seed", _n)
+                    s2.add(_abstract_strings(goal, absmemo))
+                    r2 = guarded_check(s2, 5000)
                     if r2 == z3.unsat:
-                        break
-                    if r2 == z3.sat:
+                        done = True
+                    elif r2 == z3.sat:
                         m = s2.model()
-                    else:
-                        bad_all += [k for k, _ in remaining]     # still undecided: drop them (always sound)
-                        break
-                val = {}
-                ph = cl.placeholders()
-                for (lit, e) in zip(ph.keys(), [x[1] for x in lmap]):
-                    val[lit] = z3.is_true(m.eval(e, model_completion=True))
-            finally:
-                s.pop()
+                finally:
+                    s2.pop()
+                if done:
+                    break
+                if m is None:
+                    bad_all += [k for k, _ in remaining]     # still undecided: drop them (always sound)
+                    break
+            val = {}
+            ph = cl.placeholders()
+            for (lit, e) in zip(ph.keys(), [x[1] for x in lmap]):
+                if s2 is not None:
+                    e = _abstract_strings(e, absmemo)
+                val[lit] = z3.is_true(m.eval(e, model_completion=True))
             bad = [k for k, c in remaining if all(val[l] for l in c)]
             if not bad:
                 break
             bad_all += bad
             bs = set(bad)
             remaining = [(k, c) for k, c in remaining if k not in bs]
+        if dbg:
+            print(f"  [inv] {cut}: {len(keys)} active, {_n} solver rounds, {len(bad_all)} dropped, {time.time()-_t0:.1f}s", flush=True)
         if bad_all:
             self._violated.setdefault(cut, set()).update(bad_all)
 
@@ -172,8 +209,10 @@ class MEngine:
         objs = self._objs
         for nm, ty in getattr(self, "local_types", {}).get(fn, {}).items():
             it.retype_local(fr, nm, ty)
-        self.check_inv(it, objs, cut)
         mods = may_modify(self, fr, s.body)
+        if mods is not None:
+            self.__dict__.setdefault("_cut_mods", {})[cut] = set(mods)
+        self.check_inv(it, objs, cut)
         self.havoc_mods(it, objs, mods, fr, s, itv)
         self.assume_inv(it, objs, cut)
         # loop condition / iteration
@@ -244,6 +283,41 @@ class MEngine:
 
 
 _str_memo = {}
+
+
+_BOOL_OPS = (z3.Z3_OP_AND, z3.Z3_OP_OR, z3.Z3_OP_NOT, z3.Z3_OP_IMPLIES, z3.Z3_OP_XOR, z3.Z3_OP_ITE, z3.Z3_OP_EQ,
+             z3.Z3_OP_IFF, z3.Z3_OP_DISTINCT)
+
+
+def _abstract_strings(e, memo):
+    """propositional abstraction: every atom that mentions a string/sequence term becomes a fresh Bool (the same
+    atom -> the same Bool).  Every model of the original is a model of the abstraction, so `unsat` carries over;
+    a spurious `sat` only makes the caller drop clauses it could have kept."""
+    k = e.get_id()
+    if k in memo:
+        return memo[k]
+    if not _mentions_strings(e):
+        r = e
+    elif z3.is_app(e) and z3.is_bool(e) and e.decl().kind() in _BOOL_OPS and \
+            all(z3.is_bool(c) for c in e.children()):
+        r = e.decl()(*[_abstract_strings(c, memo) for c in e.children()])
+    elif z3.is_bool(e):
+        r = z3.Bool(f"abs!{k}")
+    else:
+        r = e
+    memo[k] = r
+    return r
+
+
+def _conjuncts(e):
+    out, stack = [], [e]
+    while stack:
+        x = stack.pop()
+        if z3.is_and(x):
+            stack.extend(x.children())
+        else:
+            out.append(x)
+    return out
 
 
 def _mentions_strings(e):
